@@ -22,21 +22,81 @@
    Layer 2 (node level): every trace of the executable Votor model decides only votes that pass the
    node-level rule check (C01_votor_obeys_rules), and a vote that passes it satisfies the abstract
    rule whenever the events handed to the node are justified by the votes cast so far
-   (C01_node_rule_sound); the stake conditions under which the pool model raises SafeToNotar /
-   SafeToSkip and creates notarization certificates are such justifications
-   (C01_pool_s2n_justified, C01_pool_s2s_justified, C01_pool_notar_cert_justified, composing C06).
+   (C01_node_rule_sound).
+   Layer 3 (GLOBAL COMPOSITION, Model/System.v): a SYSTEM = one node model (Pool composed with Votor
+   as src/consensus.rs wires them) per correct validator + the global history of all votes cast.  The
+   scheduler / adversary chooses every step: a Byzantine validator casts ANY vote (equivocation
+   included); a correct node receives any vote that was really cast (by anybody, any number of times, in
+   any order, or never), any certificate backed by really cast votes (signers cast the matching votes,
+   threshold stake, each validator once - ideal signatures), any block with its true parent, any
+   time-out / shred / standstill / waiter input at any time; every vote a node's Votor decides enters
+   the history.  Crashes = never scheduled again.  PROVED, for every world with < 20 % Byzantine stake
+   and EVERY label sequence:
+     C01_system_history_rule_abiding   the global history satisfies hist_ok - the premise ev_justified
+                                       of C01_node_rule_sound is discharged (C01_system_evidence_justified):
+                                       every event a reachable pool hands to Votor is justified by the
+                                       votes cast so far (C01_pool_events_justified: ParentReady only for
+                                       marked parents over marked-skipped slots, composing C07's tracker
+                                       = marks theorem with "every mark the pool issues comes from a
+                                       justified certificate or finalization event"; SafeToNotar /
+                                       SafeToSkip by C06's conditions on stored votes, which were cast;
+                                       certificates created only at thresholds over stored votes);
+     C01_system_agreement              no two correct nodes' finality trackers hold different blocks as
+                                       finalized (directly or implicitly) for one slot;
+     C01_system_one_chain              all blocks finalized by correct nodes are ancestor-related;
+     C01_system_no_finalized_and_skip_certified / _no_other_block_certified / _certified_descends /
+     C01_system_no_finalized_and_implicitly_skipped
+                                       T2 / T3 on what nodes hold: no skip certificate, no certificate
+                                       for another block, in a directly finalized slot; later certified
+                                       blocks descend from it; no slot finalized at one node and
+                                       implicitly skipped at another;
+     C01_node_reports_finalized_only_if_justified / C01_node_holds_only_backed_certificates
+                                       the link lemmas: a status "finalized" in a node's tracker is a
+                                       finalization of the abstract view; every certificate a node
+                                       holds (created or received) is backed by really cast votes.
+     C01_system_broadcast_votes_in_history
+                                       every vote a correct node broadcasts (standstill re-broadcasts
+                                       included) is in the history: the delivery rule "any vote of the
+                                       history" covers everything correct nodes send.
+   The statements are about what the node MODELS hold; panicked pools included (a panic freezes a
+   justified state).
 
-   PARTIAL.  Not a theorem: (a) that the pool model announces ParentReady(s, p) only for marked
-   parents over marked-skipped slots (C07: oracle only) and hands blocks with their true parent
-   (C13); (b) the global composition "every correct node is a Pool+Votor pair, every delivered vote
-   was cast" as one inductive statement over multi-node executions (DESIGN layer 3) - layers 1 and 2
-   are connected by C01_node_rule_sound under the explicit premise ev_justified; (c) certificates
-   received from the network are covered through C09's ideal-signature model only.  The multi-node
-   agreement oracle runs in the C02 harness, not here; bin/check C01 ties the Votor model to the
-   real Votor step by step and judges the real Votor's broadcasts with the same rule check. *)
+   NO PANIC (C01_system_no_pool_panic, C01_pool_operation_never_panics): in EVERY system run in which
+   wait_for_parent_ready is never called for a slot that already has a pending waiter (waits_ok, a
+   decidable condition on the run: the block producer's contract, and needed:
+   C01_second_waiter_panics_refuted) the pool of every correct node stays alive.  None of the finality
+   tracker's "consensus safety violation" assertions, its fuel, "two parents for one block", the
+   parent-ready tracker's duplicate assert, an empty certificate, add_block's parent-slot assert,
+   'parent not known', recover_from_standstill (C18) can fire: T1-T3 and the justified tracker statuses
+   exclude them.
+
+   FINDINGS.  (1) C01_notarized_block_off_the_finalized_chain_refuted (a genuine defect of the tree this
+   composition was first proved against, repaired by "fix: allow a notarized block other than the
+   implicitly finalized one in a slot"): a safe, rule-abiding run with 19 % Byzantine stake (an
+   equivocating leader) in which slot 1 has a notarization certificate for (1, 12) and a notar-fallback
+   certificate for (1, 11), the chain continues through (1, 11), and (4, 41) is fast-finalized: the live
+   tracker of a correct node holds Notarized(12) while (1, 11) is finalized through its descendant, and
+   FinalityTracker::handle_implicitly_finalized's assert_eq!(hash, &block_hash, "consensus safety
+   violation") on the Notarized status fired - replayed on the real PoolImpl of that tree: the pool task
+   of every correct node holding that notarization certificate died.  A notarized block need not lie on
+   the finalized chain; only Finalized(other) / ImplicitlySkipped-vs-finalized are violations.  The
+   asserting walk is kept as Model/System.v ft_*_asserting; with the repaired tracker the same node
+   survives (C01_repaired_tracker_survives).  (2) C01_rule_R4_without_genesis_refuted: rule R4 as first
+   stated ("the parent of a notar-fallback vote is certified") is violated by the repaired
+   Pool::add_block, which treats the genesis block as a certified parent; R4 now reads "certified or
+   genesis" and T1-T3 are proved for this weaker rule.
+
+   PARTIAL.  Not a theorem: (a) the tie between the blockstore and the block tree (blocks are announced
+   with their true parent: C13) and between signature validation and "a delivered vote was cast / a
+   delivered certificate is backed" (C09) - both are the ideal model of Model/System.v; (b) tokio task
+   interleavings inside one node (one input at a time); (c) Votor's own panics are the subject of C10
+   (NodeProofs.node_votor_never_panics).  The multi-node agreement oracle runs in the C02 harness;
+   bin/check C01 ties the Votor model to the real Votor step by step and judges the real Votor's
+   broadcasts with the same rule check. *)
 From Coq Require Import List NArith Bool.
-From AG Require Import Gen.Params Model.Pool Model.PoolSpec Model.Votor Model.Safety Model.NodeRules
-                       Proofs.SlotStateProofs Proofs.SafeToProofs Proofs.SafetyProofs Proofs.SafetyLink Proofs.SafetyExamples.
+From AG Require Import Gen.Params Model.Pool Model.PoolSpec Model.Votor Model.Node Model.Safety Model.NodeRules Model.System
+                       Proofs.SlotStateProofs Proofs.SafeToProofs Proofs.SafetyProofs Proofs.SafetyLink Proofs.SafetyExamples
+                       Proofs.SafeToPool Proofs.StandstillProofs Proofs.SysSlot Proofs.SysFinality Proofs.SysReady Proofs.SysPool Proofs.SystemProofs Proofs.SysNoPanic Proofs.SystemExamples.
 Import ListNotations.
 Open Scope N_scope.
 
@@ -114,6 +174,149 @@ Theorem C01_pool_notar_cert_justified : forall W H e s ss,
   stakes e = w_stakes W -> ss_reach e ss -> (forall v k, stored ss v k -> cast H s k v = true) ->
   forall h, is_quorum e (aget 0 h (st_notar (ss_t ss))) = true -> notar_cert W H (s, h) = true.
 Proof. exact pool_notar_cert_justified. Qed.
+
+(* ---------------- layer 3: the global composition ---------------- *)
+(* every pool operation with a justified argument keeps the pool justified, and every event it hands to
+   Votor is justified by the votes cast so far (the certificate-to-mark link included) *)
+Theorem C01_pool_events_justified : forall W, world_ok W -> forall e, stakes e = w_stakes W ->
+  forall H p op p' res o,
+  PJ W e H p -> op_ok W H op -> pool_step e p op = (p', res, o) ->
+  PJ W e H p' /\ Forall (ev_just W H (own e)) (po_events o).
+Proof. exact pool_step_just. Qed.
+
+Theorem C01_initial_pool_justified : forall W e H, PJ W e H pool_init.
+Proof. exact PJ_init. Qed.
+
+Theorem C01_system_history_rule_abiding : forall W, world_ok W -> forall ls S,
+  sys_exec W ls = Some S -> hist_ok W (s_hist S).
+Proof. exact sys_hist_ok. Qed.
+
+Theorem C01_system_evidence_justified : forall W, world_ok W -> forall ls S u,
+  sys_exec W ls = Some S -> correct W u = true ->
+  exists older ev, Inv (nd_votor (s_node S u)) older ev no_ex /\ own_view (s_hist S) u older /\
+                   ev_justified W (s_hist S) u ev.
+Proof. exact sys_evidence_justified. Qed.
+
+Theorem C01_node_reports_finalized_only_if_justified : forall W, world_ok W -> forall ls S,
+  sys_exec W ls = Some S -> forall u b, correct W u = true -> node_finalized (s_node S u) b = true ->
+  exists f, finalized W (s_hist S) f = true /\ anc_eq W b f.
+Proof. exact node_finalized_sound. Qed.
+
+Theorem C01_node_holds_only_backed_certificates : forall W, world_ok W -> forall ls S,
+  sys_exec W ls = Some S -> forall u s c, correct W u = true ->
+  In c (certs_of_slot (p_ss (nd_pool (s_node S u)) s)) ->
+  c_slot c = s /\ cert_backed W (s_hist S) c = true /\ cert_just W (s_hist S) c = true.
+Proof. exact node_held_cert_sound. Qed.
+
+Theorem C01_system_agreement : forall W, world_ok W -> forall ls S,
+  sys_exec W ls = Some S -> forall u1 u2 s h1 h2,
+  correct W u1 = true -> correct W u2 = true ->
+  node_finalized (s_node S u1) (s, h1) = true -> node_finalized (s_node S u2) (s, h2) = true -> h1 = h2.
+Proof. exact sys_agreement. Qed.
+
+Theorem C01_system_one_chain : forall W, world_ok W -> forall ls S,
+  sys_exec W ls = Some S -> forall u1 u2 x1 x2,
+  correct W u1 = true -> correct W u2 = true ->
+  node_finalized (s_node S u1) x1 = true -> node_finalized (s_node S u2) x2 = true ->
+  anc_eq W x1 x2 \/ anc_eq W x2 x1.
+Proof. exact sys_one_chain. Qed.
+
+Theorem C01_system_no_finalized_and_skip_certified : forall W, world_ok W -> forall ls S,
+  sys_exec W ls = Some S -> forall u1 u2 b,
+  correct W u1 = true -> correct W u2 = true ->
+  node_direct_finalized (s_node S u1) b = true -> node_skip_certified (s_node S u2) (fst b) = false.
+Proof. exact sys_no_finalized_and_skip_certified. Qed.
+
+Theorem C01_system_no_other_block_certified : forall W, world_ok W -> forall ls S,
+  sys_exec W ls = Some S -> forall u1 u2 b h',
+  correct W u1 = true -> correct W u2 = true ->
+  node_direct_finalized (s_node S u1) b = true -> node_certified (s_node S u2) (fst b, h') = true -> h' = snd b.
+Proof. exact sys_no_other_block_certified. Qed.
+
+Theorem C01_system_certified_descends : forall W, world_ok W -> forall ls S,
+  sys_exec W ls = Some S -> forall u1 u2 b c,
+  correct W u1 = true -> correct W u2 = true ->
+  node_direct_finalized (s_node S u1) b = true -> node_certified (s_node S u2) c = true -> fst b <= fst c ->
+  anc_eq W b c.
+Proof. exact sys_certified_descends. Qed.
+
+Theorem C01_system_no_finalized_and_implicitly_skipped : forall W, world_ok W -> forall ls S,
+  sys_exec W ls = Some S -> forall u1 u2 b,
+  correct W u1 = true -> correct W u2 = true ->
+  node_finalized (s_node S u1) b = true -> node_impl_skipped (s_node S u2) (fst b) = false.
+Proof. exact sys_no_finalized_and_implicitly_skipped. Qed.
+
+(* adequacy of the delivery rule: every vote a correct node hands to broadcast in a step (decided votes and the
+   re-broadcasts of a standstill bundle) is in the global history after the step *)
+Theorem C01_system_broadcast_votes_in_history : forall W, world_ok W -> forall ls S u i v,
+  sys_exec W ls = Some S -> correct W u = true -> input_okb W (s_hist S) i = true ->
+  let e := node_epoch W u in
+  In (VBVote v) (no_out (snd (node_step e (s_node S u) i))) ->
+  In v (rev (node_decided e (s_node S u) i) ++ s_hist S).
+Proof. exact sys_broadcast_votes_in_history. Qed.
+
+(* no pool panic *)
+Theorem C01_pool_operation_never_panics : forall W, world_ok W -> forall e, stakes e = w_stakes W ->
+  forall H, hist_ok W H ->
+  forall p op, p_panicked p = false -> PJ W e H p -> link_inv p None -> wait_inv p -> StandstillProofs.INV p ->
+  op_ok W H op -> op_safe p op = true ->
+  p_panicked (fst (fst (pool_step e p op))) = false.
+Proof. exact pool_step_total. Qed.
+
+Theorem C01_system_no_pool_panic : forall W, world_ok W -> forall ls S,
+  sys_exec W ls = Some S -> waits_ok W ls = true ->
+  forall u, correct W u = true -> p_panicked (nd_pool (s_node S u)) = false.
+Proof. exact sys_no_pool_panic. Qed.
+
+Theorem C01_system_no_pool_panic_without_waiters : forall W, world_ok W -> forall ls S,
+  sys_exec W ls = Some S -> forallb no_wait_label ls = true ->
+  forall u, correct W u = true -> p_panicked (nd_pool (s_node S u)) = false.
+Proof. exact sys_no_pool_panic_without_waiters. Qed.
+
+(* the hypothesis of the no-panic theorem is satisfiable (the run of C01_system_nonvacuous), and needed *)
+Example C01_no_pool_panic_nonvacuous : waits_ok sxW sx_run = true.
+Proof. exact sx_run_waits_ok. Qed.
+
+Theorem C01_second_waiter_panics_refuted :
+  exists W ls S u, world_ok W /\ sys_exec W ls = Some S /\ correct W u = true /\ waits_ok W ls = false /\
+                   p_panicked (nd_pool (s_node S u)) = true.
+Proof. exact second_waiter_panics. Qed.
+
+(* FINDING: a notarized block off the finalized chain at a live correct node in a safe run; the tracker's walk
+   with the assertion on a Notarized status (Model/System.v ft_mark_fast_finalized_asserting) panics on it *)
+Theorem C01_notarized_block_off_the_finalized_chain_refuted :
+  exists W ls S u,
+    world_ok W /\ forallb plain_label ls = true /\ sys_exec W ls = Some S /\ correct W u = true /\
+    p_panicked (nd_pool (s_node S u)) = false /\
+    alookup 1 (ft_status (p_ft (nd_pool (s_node S u)))) = Some (FNotarized 12) /\
+    node_certified (s_node S u) (1, 11) = true /\
+    ff_cert W (s_hist S) (4, 41) = true /\ finalized W (s_hist S) (4, 41) = true /\ anc_eq W (1, 11) (4, 41) /\
+    ft_mark_fast_finalized_asserting (p_ft (nd_pool (s_node S u))) (4, 41) = None.
+Proof. exact notarized_block_off_the_finalized_chain. Qed.
+
+Theorem C01_repaired_tracker_survives :
+  exists S, sys_exec pxW (px_run ++ [LNode 0 (NVote (nv 4 41 1))]) = Some S /\
+    waits_ok pxW (px_run ++ [LNode 0 (NVote (nv 4 41 1))]) = true /\
+    p_panicked (nd_pool (s_node S 0)) = false /\ node_direct_finalized (s_node S 0) (4, 41) = true.
+Proof. exact repaired_tracker_survives. Qed.
+
+(* the system's hypotheses are satisfiable and the statuses the theorems speak about occur: a run with an
+   equivocating Byzantine validator in which two correct nodes fast-finalize block (1, 11) *)
+Example C01_system_nonvacuous :
+  world_ok sxW /\
+  exists S, sys_exec sxW sx_run = Some S /\
+    node_direct_finalized (s_node S 0) (1, 11) = true /\ node_finalized (s_node S 1) (1, 11) = true /\
+    node_certified (s_node S 0) (1, 11) = true /\
+    cast (s_hist S) 1 (KNotar 11) 5 = true /\ cast (s_hist S) 1 (KNotar 12) 5 = true /\ cast (s_hist S) 1 KSkip 5 = true /\
+    cast (s_hist S) 1 KFinal 0 = true /\ cast (s_hist S) 1 KFinal 1 = true.
+Proof. exact sys_nonvacuous. Qed.
+
+(* FINDING: the composition is false for R4 without the genesis clause *)
+Theorem C01_rule_R4_without_genesis_refuted :
+  exists W ls S newer x older,
+    world_ok W /\ sys_exec W ls = Some S /\ s_hist S = newer ++ x :: older /\
+    correct W (v_signer x) = true /\ ~ strict_r4 W older x.
+Proof. exact strict_r4_refuted. Qed.
 
 (* ---------------- the hypotheses are satisfiable; each clause is needed ---------------- *)
 Example C01_nonvacuous :
@@ -193,3 +396,24 @@ Print Assumptions C01_pool_s2s_justified.
 Print Assumptions C01_nonvacuous.
 Print Assumptions C01_R2_bad_window_needed.
 Print Assumptions C01_R6_needed.
+Print Assumptions C01_pool_events_justified.
+Print Assumptions C01_system_history_rule_abiding.
+Print Assumptions C01_system_evidence_justified.
+Print Assumptions C01_node_reports_finalized_only_if_justified.
+Print Assumptions C01_node_holds_only_backed_certificates.
+Print Assumptions C01_system_agreement.
+Print Assumptions C01_system_one_chain.
+Print Assumptions C01_system_no_finalized_and_skip_certified.
+Print Assumptions C01_system_no_other_block_certified.
+Print Assumptions C01_system_certified_descends.
+Print Assumptions C01_system_no_finalized_and_implicitly_skipped.
+Print Assumptions C01_system_nonvacuous.
+Print Assumptions C01_rule_R4_without_genesis_refuted.
+Print Assumptions C01_pool_operation_never_panics.
+Print Assumptions C01_system_no_pool_panic.
+Print Assumptions C01_system_no_pool_panic_without_waiters.
+Print Assumptions C01_second_waiter_panics_refuted.
+Print Assumptions C01_repaired_tracker_survives.
+Print Assumptions C01_no_pool_panic_nonvacuous.
+Print Assumptions C01_notarized_block_off_the_finalized_chain_refuted.
+Print Assumptions C01_system_broadcast_votes_in_history.
